@@ -17,6 +17,7 @@ import (
 	"github.com/AliceO2Group/Control/configuration/cfgbackend"
 	"github.com/AliceO2Group/Control/core/integration"
 	"github.com/AliceO2Group/Control/core/repos"
+	"github.com/AliceO2Group/Control/core/task/channel"
 	"github.com/AliceO2Group/Control/core/workflow"
 	"github.com/sirupsen/logrus"
 	"github.com/spf13/viper"
@@ -68,7 +69,10 @@ type node struct {
 	ListDep string `json:"range_depends_on,omitempty"`
 	// BrokenFor: a run-time template error (index out of range) for the element x1 of this
 	// iteration variable only
-	BrokenFor string  `json:"broken_for_x1_of,omitempty"`
+	BrokenFor string `json:"broken_for_x1_of,omitempty"`
+	// BindAlias: the role declares an inbound channel ch_<name> whose global alias is "al-{{ <this
+	// iteration variable> }}"; roles below inherit it
+	BindAlias string  `json:"bind_alias_of,omitempty"`
 	Kids      []*node `json:"kids,omitempty"`
 }
 
@@ -122,6 +126,9 @@ func (g *gen) mk(depth int, iterVars []string) *node {
 		nd.Enabled = "" // a templated enabled on the iterated role itself only rarely (known finding)
 	}
 	nd.HasVar = kind != "call" && c.W(3, "vars") == 2
+	if kind != "call" && len(iterVars) > 0 && c.W(3, "bind-with-alias") == 2 {
+		nd.BindAlias = iterVars[c.W(len(iterVars), "alias-var")]
+	}
 	if kind != "call" && g.canBreak && c.F(20, "break-here") == 19 {
 		nd.Broken, g.canBreak = true, false
 		switch how := c.F(3, "broken-how"); {
@@ -183,6 +190,9 @@ func yamlNode(b *strings.Builder, nd *node, ind string) {
 			fmt.Fprintf(b, "%s  broken: \"{{ 1 + }}\"\n", in)
 		}
 	}
+	if nd.BindAlias != "" {
+		fmt.Fprintf(b, "%sbind:\n%s  - name: ch_%s\n%s    type: pull\n%s    global: \"al-{{ %s }}\"\n", in, in, nd.Name, in, in, nd.BindAlias)
+	}
 	switch nd.Kind {
 	case "task":
 		fmt.Fprintf(b, "%stask:\n%s  load: cls-%s\n", in, in, nd.Name)
@@ -200,9 +210,27 @@ func yamlNode(b *strings.Builder, nd *node, ind string) {
 type refResult struct {
 	paths      []string // DFS order
 	errReached bool
+	chans      map[string]string // path -> inbound channels (own and inherited) with their aliases
+}
+
+func renderChans(m map[string]string) string {
+	var ks []string
+	for k := range m {
+		ks = append(ks, k)
+	}
+	sort.Strings(ks)
+	r := ""
+	for _, k := range ks {
+		r += k + "=" + m[k] + ";"
+	}
+	return r
 }
 
 func (sc *scenario) expand(nd *node, prefix string, bind map[string]string, out *refResult) bool {
+	return sc.expandC(nd, prefix, bind, map[string]string{}, out)
+}
+
+func (sc *scenario) expandC(nd *node, prefix string, bind, chans map[string]string, out *refResult) bool {
 	elems := []string{""}
 	if nd.List != "" {
 		elems = sc.Lists[nd.List]
@@ -244,6 +272,18 @@ func (sc *scenario) expand(nd *node, prefix string, bind map[string]string, out 
 			out.errReached = true
 		}
 		path := prefix + "." + name
+		ch := chans
+		if nd.BindAlias != "" {
+			ch = map[string]string{}
+			for k, v := range chans {
+				ch[k] = v
+			}
+			ch["ch_"+nd.Name] = "al-" + b[nd.BindAlias]
+		}
+		if out.chans == nil {
+			out.chans = map[string]string{}
+		}
+		out.chans[path] = renderChans(ch)
 		if nd.Kind != "agg" {
 			out.paths = append(out.paths, path)
 			any = true
@@ -253,7 +293,7 @@ func (sc *scenario) expand(nd *node, prefix string, bind map[string]string, out 
 		out.paths = append(out.paths, path)
 		kept := false
 		for _, k := range nd.Kids {
-			if sc.expand(k, path, b, out) {
+			if sc.expandC(k, path, b, ch, out) {
 				kept = true
 			}
 		}
@@ -291,6 +331,7 @@ type loaded struct {
 	err   string
 	paths []string
 	vars  map[string]string // path -> rendering of the consolidated variables that matter
+	chans map[string]string // path -> inbound channels with their aliases
 	yaml  string
 }
 
@@ -311,6 +352,13 @@ func dump(r workflow.Role, out *loaded) {
 			}
 			out.vars[k.GetPath()] = s + fmt.Sprintf("enabled=%v hooks=%d", k.IsEnabled(), len(k.GetAllHooks()))
 		}
+		cm := map[string]string{}
+		if ci, ok := k.(interface{ CollectInboundChannels() []channel.Inbound }); ok {
+			for _, ch := range ci.CollectInboundChannels() {
+				cm[ch.Name] = ch.Global
+			}
+		}
+		out.chans[k.GetPath()] = renderChans(cm)
 		dump(k, out)
 	}
 }
@@ -326,7 +374,7 @@ func load(c *hk.Ctx, yamlDoc string, a, b, d bool) *loaded {
 		func() gera.Map[string, string] { return gera.MakeMap[string, string]() },
 		func() gera.Map[string, string] { return gera.MakeMap[string, string]() },
 		func(event.Event) {})
-	out := &loaded{vars: map[string]string{}}
+	out := &loaded{vars: map[string]string{}, chans: map[string]string{}}
 	root, err := workflow.UnmarshalRoleForVerif([]byte(yamlDoc), pa)
 	if err != nil {
 		out.err = "unmarshal: " + err.Error()
@@ -418,6 +466,12 @@ func body(c *hk.Ctx) {
 			}
 			c.Violate("pruning-and-expansion", sig, "loaded tree (switches %s) has roles\n%v\nthe reference expansion (disabled roles and emptied aggregators absent, one child per range element in order) gives\n%v", name, l.paths, ref.paths)
 			return false
+		}
+		for _, p := range ref.paths {
+			if l.chans[p] != ref.chans[p] {
+				c.Violate("channels", "inbound-alias-differs:"+name, "role %s (switches %s) has the inbound channels %q, the template gives %q (global alias with the iteration variable bound)", p, name, l.chans[p], ref.chans[p])
+				return false
+			}
 		}
 		return true
 	}
